@@ -11,7 +11,8 @@ with keys in normal form:
 
 seq_of(...) reads list literals, +, sum(generator, []), names (definition followed by the in-place
 growth between definition and use: +=, .append, .extend, loops over the gaps that do those), list(),
-X.tolist(), arrays indexed by the gap index array, and stride-2 slices.
+X.tolist(), arrays indexed by the gap index array, stride-2 slices, starred elements of a list display
+and itertools.chain.from_iterable(zip(X, Y)) / chain(*zip(X, Y)).
 """
 
 import ast
@@ -123,7 +124,29 @@ def seq_of(env, e, depth=0):
     if e is None or depth > 10:
         return None
     if isinstance(e, (ast.List, ast.Tuple)):
-        return [("one", key_of(env, x)) for x in e.elts] if not any(isinstance(x, ast.Starred) for x in e.elts) else None
+        out = []
+        for x in e.elts:
+            if isinstance(x, ast.Starred):
+                sub = seq_of(env, x.value, depth + 1)
+                if sub is None:
+                    return None
+                out += sub
+            else:
+                out.append(("one", key_of(env, x)))
+        return out
+    if isinstance(e, ast.Call) and ast.unparse(e.func).endswith("chain.from_iterable") and len(e.args) == 1 and not e.keywords:
+        # chain.from_iterable(zip(X, Y)) = sum((list(p) for p in zip(X, Y)), [])
+        z = e.args[0]
+        if isinstance(z, ast.Call) and isinstance(z.func, ast.Name) and z.func.id == "zip" and not z.keywords and z.args:
+            keys = [_elementwise(env, a) for a in z.args]
+            return [("per", keys)] if all(k is not None for k in keys) else None
+        return None
+    if isinstance(e, ast.Call) and ast.unparse(e.func).split(".")[-1] == "chain" and len(e.args) == 1 and isinstance(e.args[0], ast.Starred) and not e.keywords:
+        z = e.args[0].value
+        if isinstance(z, ast.Call) and isinstance(z.func, ast.Name) and z.func.id == "zip" and not z.keywords and z.args:
+            keys = [_elementwise(env, a) for a in z.args]
+            return [("per", keys)] if all(k is not None for k in keys) else None
+        return None
     if isinstance(e, ast.BinOp) and isinstance(e.op, ast.Add):
         a, b = seq_of(env, e.left, depth + 1), seq_of(env, e.right, depth + 1)
         return a + b if a is not None and b is not None else None
